@@ -126,6 +126,7 @@ struct adapter {
         s.reset( new set_type( (size_t) cap, rp_of<RP>::make( th )));
     }
     long size() { return (long) s->size(); }
+    long bucket_count() { return (long) s->bucket_count(); }
 
     template <bool W> typename std::enable_if<W, bool>::type with_ops( result& r, long code, long k )
     {
@@ -184,6 +185,7 @@ struct adapter {
         s.reset( new map_type( (size_t) cap, rp_of<RP>::make( th )));
     }
     long size() { return (long) s->size(); }
+    long bucket_count() { return (long) s->bucket_count(); }
 
     template <bool W> typename std::enable_if<W, bool>::type with_ops( result& r, long code, long k )
     {
